@@ -1,6 +1,7 @@
 import CogentModel.Json
 import CogentModel.Model.Calculator
 import CogentModel.Model.Controller
+import CogentModel.Model.ControllerLf
 import CogentModel.Model.ParamRules
 open CogentModel CogentModel.Calc
 
@@ -163,8 +164,39 @@ def rulesRun (d : Rules.Defn) : Rules.St → List Rules.RuleArgs → List J
     | .error e => J.obj [("err", .str e)] :: rulesRun d s rs
     | .ok s' => let s'' := rulesFreeze d s'; rulesSnap d s'' :: rulesRun d s'' rs
 
+/-! ### likelihood-function level ops compiled to controller ops -/
+
+def opTag : Ctl.Op Int → J
+  | .assign k _ => J.arr [J.str "assign", J.ofNat k]
+  | .enter => J.arr [J.str "enter"]
+  | .exit => J.arr [J.str "exit"]
+  | .xexit => J.arr [J.str "xexit"]
+
+def parseSimple (j : J) : Except String (Ctl.Simple Int) := do
+  match ← (← j.get "op").toStr with
+  | "setParam" => do pure (.setParam (← (← j.get "leaf").toNat) 0)
+  | "setMotifProbs" => do
+    let ls ← (← j.get "leaves").toListOf J.toNat
+    pure (.setMotifProbs (ls.map (fun k => (k, 0))))
+  | "setAlignment" => do
+    let loci ← (← j.get "loci").toListOf (fun x => do
+      let a ← (← x.get "aln").toNat
+      let m ← match optField x "mprobs" with
+        | .null => pure none
+        | y => do pure (some ((← y.toNat), (0 : Int)))
+      pure (a, (0 : Int), m))
+    pure (.setAlignment loci)
+  | s => throw s!"bad simple op {s}"
+
 def handle (cmd : String) (j : J) : Except String J :=
   match cmd with
+  | "compile" => do
+    let ops ← match optField j "block" with
+      | .null => do pure (Ctl.compileLf (.simple (← parseSimple j)))
+      | b => do
+        let body ← (← j.get "body").toListOf parseSimple
+        pure (Ctl.compileLf (if (← b.toStr) == "raises" then .postponedRaises body else .postponed body))
+    pure (J.ofList opTag ops)
   | "rules" => do
     let d : Rules.Defn := { nEdges := ← (← j.get "n").toNat, dLo := ← (← j.get "lo").toRat,
                             dVal := ← (← j.get "val").toRat, dHi := ← (← j.get "hi").toRat,
